@@ -29,6 +29,9 @@ from .c09_world import (RealWorld, op_tokens, render_fields, units_token, obj_op
 
 TRICKY = ["nan", "inf", "-inf", "a nan b", "x inf", "it's", 'say "hi"', " lead", "", "None", "True", "[1, 2]",
           "str x", "list [1]", "nan,inf", "tuple ()", "back\\slash", "{'k': 1}", "naninf", "-inf-", "abc", "Å?" ]
+# the words the decoder dispatches on (`attr.partition(" ")`), alone, with a blank, with something after the blank
+TRICKY += ["list", "tuple", "set", "dict", "str", "list ", "str ", "set()", "dict()", "tuple()", "list()", "int 3", "float", "bool",
+           "dict {'a': 1}", "set x", " str", "str  two"]
 TRICKY = [t for t in TRICKY if all(ord(c) < 128 for c in t)]
 
 
@@ -277,8 +280,10 @@ def gen_dataset_ops(rng):
         # one array object held by two or three fields (the file holds the array once, under the last of them; the
         # other groups name that field: `same_as`); the extra fields come after, before or in between
         a0 = rng.choice(adds)
-        for k in range(rng.choice([1, 1, 2])):
-            extra = add_op(0, rng.choice(["", "g1.", "g3.", "g1.g2."]) + names[7 + k], a0["kind"], ["f", 0, a0["path"]],
+        used = {o["path"].split(".")[-1] for o in ops if o["op"] == "add"}
+        free = [x for x in names if x not in used]          # (a name already in use would silently re-use that field)
+        for k in range(min(rng.choice([1, 1, 2]), len(free))):
+            extra = add_op(0, rng.choice(["", "g1.", "g3.", "g1.g2."]) + free[k], a0["kind"], ["f", 0, a0["path"]],
                            unit=a0.get("unit"), level=rng.choice([1, 2, 3, 3]))
             j = ops.index(a0) + 1
             ops.insert(rng.choice([j, len(ops), rng.randint(j, len(ops))]), extra)
@@ -680,6 +685,8 @@ def one_dataset(ctx: Ctx, setup_ops, level: int, meta: dict, tmp: str, tag: str,
             try:
                 if how == "f":
                     t = ds[what]
+                    if describe(t)[0] != "time" or t is ds[path]:
+                        raise ValueError("not a time")     # (never a cycle: an object cannot be its own attachment)
                 else:
                     if what not in anon_t:
                         anon_t[what] = Time(np.array([51544.0 + 7 * what + r for r in range(ds.num_obs)], dtype=float), scale="utc", fmt="mjd")
@@ -828,7 +835,46 @@ def one_dataset(ctx: Ctx, setup_ops, level: int, meta: dict, tmp: str, tag: str,
             ctx.violate("meta:" + ("string" if isinstance(v, str) else type(v).__name__),
                         f"meta {k!r}: wrote {v!r}, read {e.meta[k]!r}", case)
             return
+    rewrite_history(ctx, e, want, path, level, meta, dvars, case)
     reread_history(ctx, ds, e, path, level, meta, case)
+
+
+def rewrite_history(ctx: Ctx, e, want, path, level, meta, dvars, case):
+    """a dataset obtained by reading is a dataset like any other: written again (at the lowest level: it holds only the
+    fields that were kept) and read again it must still be what was written first (write -> read -> write -> read)"""
+    from midgard.data import dataset
+
+    hist = {**case, "history": "write,read,write-the-result,read"}
+    path2 = path + ".2"
+    ctx.count("history:write-read-write-read")
+    with contextlib.redirect_stdout(io.StringIO()):
+        try:
+            e.write(path2)
+        except Exception as ex:
+            ctx.violate("rewrite:write-raises:" + _site(ex), f"writing the dataset that was read raised {type(ex).__name__}: {ex}", hist)
+            return
+        try:
+            e2 = dataset.Dataset.read(path2)
+        except Exception as ex:
+            ctx.violate("rewrite:read-raises:" + _site(ex), "the file written from the dataset that was read cannot be read: "
+                        f"{type(ex).__name__}: {ex}", hist)
+            return
+        finally:
+            with contextlib.suppress(OSError):
+                os.remove(path2)
+    got = (e2.num_obs, oracle_fields(e2._fields, field_index(e2._fields), 0))
+    d = first_diff(got, want)
+    if d:
+        ctx.violate("rewrite:" + d[0], "after write, read, write of the result, read the dataset differs from what was written "
+                    "first: " + d[1], hist)
+        return
+    if not _same(dict(dvars), dict(e2.vars)):
+        ctx.violate("rewrite:vars", f"vars: wrote {dvars!r}, after the second round trip {dict(e2.vars)!r}", hist)
+        return
+    for k, v in meta.items():
+        if k not in e2.meta or not _same_meta_file(v, e2.meta[k]):
+            ctx.violate("rewrite:meta", f"meta {k!r}: wrote {v!r}, after the second round trip {e2.meta.get(k)!r}", hist)
+            return
 
 
 def _same_meta_file(a, b) -> bool:
